@@ -44,7 +44,7 @@ Section PartitionP.
     end.
 
   Definition roundtrips (hive : bool) (k : kind) (v : value) : Prop :=
-    parse_with_meta k (show hive v) = Some (unwrap v).
+    parse_with_meta k (show hive v) = Ok (unwrap v).
 
   Lemma roundtrip_int sg bits z hive : in_range sg bits z = true -> roundtrips hive (KInt sg bits) (VInt z).
   Proof. intros H. unfold roundtrips. cbn. rewrite parse_int_show_Z, H. reflexivity. Qed.
@@ -105,15 +105,15 @@ Section PartitionP.
     | _, _ => False
     end.
 
-  Lemma parse_with_meta_of_kind k x v : parse_with_meta k x = Some v -> of_kind k v.
+  Lemma parse_with_meta_of_kind k x v : parse_with_meta k x = Ok v -> of_kind k v.
   Proof.
     destruct k; cbn.
     - destruct (parse_int x); [|discriminate]. destruct (in_range _ _ _); [|discriminate]. now intros [= <-].
     - now intros [= <-].
     - now intros [= <-].
-    - destruct (parse_float x); [|discriminate]. now intros [= <-].
+    - destruct (parse_float x); [|discriminate]. cbn. now intros [= <-].
     - destruct (parse_time_np x); [now intros [= <-]|]. destruct ns; [|discriminate].
-      destruct (parse_time_fmt x); [|discriminate]. now intros [= <-].
+      destruct (parse_time_fmt x); [|discriminate]. cbn. now intros [= <-].
     - now intros [= <-].
   Qed.
 
